@@ -852,6 +852,11 @@ def generate(ctx):
             shape = [[4], [2, 3], [1], [3, 1, 2]][(rep + CLASSES.index(cls)) % 4]
             n0 = int(np.prod(shape))
             data = thresh_data(rng, n0, dim)
+            # exact special elements: identity / its antipode, coordinate axes, two-fold rotations, the null vector
+            special = ([[1.0, 0.0, 0.0, 0.0], [-1.0, 0.0, 0.0, 0.0], [0.0, 0.0, 0.0, 1.0], [0.0, 1.0, 0.0, 0.0]] if dim == 4
+                       else [[0.0, 0.0, 1.0], [0.0, 0.0, -1.0], [1.0, 0.0, 0.0], [0.0, 0.0, 0.0]])
+            for j in range(min(n0, 1 + rep % 2 + (n0 > 3))):
+                data[(j * 2 + rep) % n0] = list(special[(j + rep) % len(special)])
             if cls in ROT:  # keep rows normalisable
                 for r in data:
                     if not any(abs(x) > 1e-3 for x in r):
